@@ -15,11 +15,11 @@ META = {
     "level": "exploration",
     "engine": "vmtable",
     "technique": "TLA+ spec VmBytecode (abstract policy VM, total step relation) model-checked with TLC; every TLC-enumerated program x stack x context x I/O class and every corrupted-module cell replayed into the real Machine/RunState (TABLE binding), outcome compared with the spec's prediction, panic = violation",
-    "text": "TLC enumerates every instruction cell (all Instruction variants x operand classes: targets in range/one past the end/usize::MAX/unresolved, counts 1/2/usize::MAX, limits <= 0, defined/undefined names) from every initial stack of depth 0..2 over representatives of each Value kind, all 2-instruction prefix trees from stacks of depth 0..1 (thorough: also all 3-instruction trees from the empty stack), longer programs by seeded simulation, with command context and I/O result class (ok/empty/error/failing iterator) chosen at the first instruction that consults them.  The spec shows at model level that each (state, instruction) has a defined outcome among continue / policy exit / MachineErrorType.  Each behaviour is executed on the real VM step-wise and through run(); the predicted status, value stack, pc, context, locals, I/O log and step count are compared (drift).  Mutated ModuleV0 values (code-map spans at/after the end of the text or inside a character, labels out of range or missing, duplicate/dangling/empty definitions) are loaded with Machine::from_module and entered through run/call_action/call_command_policy/call_seal/call_open.  Decides: no panic.",
-    "note": "Exploration, not proof: programs <= 2 (thorough 3) instructions exhaustively, to 5 by simulation; world of 2 structs/1 fact/1 enum/1 global; stub MachineIO.  Non-terminating programs are cut at the spec's step budget and then stepped 1500 more times for panics only.  Trusted: the stub I/O layer and the engine's value abstraction.",
+    "text": "TLC enumerates every instruction cell (all Instruction variants x operand classes: targets in range/one past the end/usize::MAX/unresolved, counts 1/2/usize::MAX, limits <= 0, defined/undefined names) from every initial stack of depth 0..2 over representatives of each Value kind, all 2-instruction prefix trees from stacks of depth 0..1 (thorough: also all 3-instruction trees from the empty stack and all 4-instruction trees over one cell per instruction variant), longer programs by seeded simulation, with command context and I/O result class (ok/empty/error/failing iterator) chosen at the first instruction that consults them.  The spec shows at model level that each (state, instruction) has a defined outcome among continue / policy exit / MachineErrorType.  Each behaviour is executed on the real VM step-wise and through run(); the predicted status, value stack, pc, context, locals, I/O log and step count are compared (drift).  Mutated ModuleV0 values (code-map spans at/after the end of the text or inside a character, labels out of range or missing, duplicate/dangling/empty definitions) are loaded with Machine::from_module and entered through run/call_action/call_command_policy/call_seal/call_open.  Decides: no panic.",
+    "note": "Exploration, not proof: programs <= 2 (thorough 3, and 4 over a core alphabet) instructions exhaustively, to 5 by simulation; world of 2 structs/1 fact/1 enum/1 global; stub MachineIO.  Non-terminating programs are cut at the spec's step budget and then stepped 1500 more times for panics only.  Trusted: the stub I/O layer and the engine's value abstraction.",
 }
 
-BUDGET = {"MC_VmBytecode_L1.cfg": 4, "MC_VmBytecode_L2.cfg": 6, "MC_VmBytecode_L2q.cfg": 6,
+BUDGET = {"MC_VmBytecode_L1.cfg": 4, "MC_VmBytecode_L2.cfg": 6, "MC_VmBytecode_L4core.cfg": 10, "MC_VmBytecode_L2q.cfg": 6,
           "MC_VmBytecode_L3.cfg": 8, "MC_VmBytecode_Sim.cfg": 12}
 
 # Regressions found by this check on the tree as delivered (fixed since, see
@@ -66,27 +66,6 @@ def to_case(b, tb, budget):
     }
 
 
-def vacuity(cases, tb):
-    """Every instruction variant, context and I/O class was exercised."""
-    ops = {c[0] for c in tb["cells"]}
-    seen_ops, seen_ctx, seen_io, seen_st = set(), set(), set(), {}
-    for c in cases:
-        for cell in c["prog"]:
-            if cell:
-                seen_ops.add(cell[0])
-        seen_ctx.add(c["ctx"])
-        seen_io.add(c["io"])
-        seen_st[c["exp"]["st"]] = seen_st.get(c["exp"]["st"], 0) + 1
-    missing = ops - seen_ops
-    if missing:
-        raise verif.ToolError("vacuous: instruction variants never executed: %s" % sorted(missing))
-    for need, seen in ((("action", "seal", "open", "policy", "recall"), seen_ctx),
-                       (("ok", "empty", "error", "itemerr"), seen_io)):
-        if not set(need) <= seen:
-            raise verif.ToolError("vacuous: classes never chosen: %s" % sorted(set(need) - seen))
-    return seen_st
-
-
 def module_cases(cells, base_cases):
     """ModCells (TLC) x one short terminating program per distinct predicted outcome (TLC)."""
     progs, seen = [], set()
@@ -123,53 +102,85 @@ def run(ctx):
 
     cfgs = ["MC_VmBytecode_L1.cfg", "MC_VmBytecode_L2.cfg"]
     if ctx.thorough:
-        cfgs.append("MC_VmBytecode_L3.cfg")
-    cases, tb, per_cfg = [], None, {}
-    for cfg in cfgs:
-        # no -coverage: it costs ~20 s of start-up on this spec; vacuity is checked on the
-        # behaviours themselves (vacuity(): every variant, context and I/O class exercised)
-        r = ctx.tlc("VmBytecode", cfg, timeout=1800, coverage=False)
+        cfgs += ["MC_VmBytecode_L3.cfg", "MC_VmBytecode_L4core.cfg"]
+    cfgs.append("MC_VmBytecode_Sim.cfg")
+    tb, per_cfg, total = None, {}, 0
+    seen_ops, seen_ctx, seen_io, outcomes = set(), set(), set(), {}
+    klasses, drift_kinds = set(), {}
+    mod_base, good = [], None
+    for n, cfg in enumerate(cfgs):
+        if cfg == "MC_VmBytecode_Sim.cfg":
+            # depth by seeded simulation: programs of 4-5 instructions (TLC checks every successor
+            # of every state on a simulated trace, so `num` traces give a few hundred behaviours each)
+            sim_n = max(1, (1600 if ctx.thorough else 48) // ctx.tlc_workers)
+            r = ctx.tlc("VmBytecode", cfg, simulate=sim_n, depth=14, timeout=900, coverage=False)
+            uniq = {json.dumps(b, sort_keys=True): b for b in r.replays}
+            behaviours = [uniq[k] for k in sorted(uniq)]
+        else:
+            # no -coverage: it costs ~20 s of start-up on this spec; vacuity is checked on the
+            # behaviours themselves (every variant, context and I/O class exercised)
+            r = ctx.tlc("VmBytecode", cfg, timeout=1800, coverage=False)
+            behaviours = r.replays
         tb = tb or tables(r)
-        cs = [to_case(b, tb, BUDGET[cfg]) for b in r.replays]
+        cs = [to_case(b, tb, BUDGET[cfg]) for b in behaviours]
+        r.replays = behaviours = None
         if not cs:
             raise verif.ToolError("TLC emitted no behaviours for " + cfg)
         per_cfg[cfg] = len(cs)
-        if not ctx.thorough and cfg != "MC_VmBytecode_L1.cfg" and len(cs) > 50000:
+        for c in cs:
+            for cell in c["prog"]:
+                if cell:
+                    seen_ops.add(cell[0])
+            seen_ctx.add(c["ctx"])
+            seen_io.add(c["io"])
+            e = c["exp"]
+            outcomes[e["st"]] = outcomes.get(e["st"], 0) + 1
+            # distinct non-trivial cells: (instruction that produced the final outcome, outcome,
+            # kinds of the values left on the stack), where the outcome is not the trivial accept
+            # — a normal exit or simply running off the end of the program
+            if e["st"] not in ("exit:normal", "err:InvalidAddress"):
+                cell = c["prog"][e["pc"]] if e["pc"] < c["len"] else None
+                klasses.add((json.dumps(cell), e["st"], tuple(v[0] for v in e["s"])))
+        if cfg == "MC_VmBytecode_L1.cfg":
+            mod_base = [c for c in cs if not c["init"]]
+            good = next(c for c in cs if c["exp"]["st"] == "exit:normal" and c["exp"]["s"])
+        if not ctx.thorough and cfg == "MC_VmBytecode_L2.cfg" and len(cs) > 50000:
             # quick tier: TLC still enumerates (and checks) the whole tree; a seeded sample is replayed
-            outcomes_all = {}
+            by_st = {}
             for c in cs:
-                outcomes_all.setdefault(c["exp"]["st"], []).append(c)
-            keep = [c for v in outcomes_all.values() for c in verif.sample(ctx.rng, v, 40)]   # every outcome stays
+                by_st.setdefault(c["exp"]["st"], []).append(c)
+            keep = [c for v in by_st.values() for c in verif.sample(ctx.rng, v, 40)]   # every outcome stays
             cs = keep + verif.sample(ctx.rng, cs, 50000 - len(keep))
             per_cfg[cfg + ":replayed"] = len(cs)
-        cases += cs
-    outcomes = vacuity(cases, tb)
-
-    # depth by seeded simulation: programs of 4-5 instructions (TLC checks every successor of
-    # every state on a simulated trace, so `num` traces give a few hundred behaviours each)
-    sim_n = max(1, (1600 if ctx.thorough else 48) // ctx.tlc_workers)
-    r = ctx.tlc("VmBytecode", "MC_VmBytecode_Sim.cfg", simulate=sim_n, depth=14, timeout=900,
-                coverage=False)
-    sim = {json.dumps(b, sort_keys=True): b for b in r.replays}
-    sim_cases = [to_case(sim[k], tb, BUDGET["MC_VmBytecode_Sim.cfg"]) for k in sorted(sim)]
-    per_cfg["MC_VmBytecode_Sim.cfg"] = len(sim_cases)
-    cases += sim_cases
-
-    res = ctx.run_engine(vh, "bytecode", PINNED + cases, timeout=1800)
-    if len(res) < len(PINNED) + len(cases):
-        ctx.log("engine returned %d results for %d cases" % (len(res), len(cases)))
-    ctx.absorb(res)
+        batch = (PINNED if n == 0 else []) + cs
+        res = ctx.run_engine(vh, "bytecode", batch, timeout=1800, tag="bytecode-%d" % n)
+        if len(res) < len(batch):
+            ctx.log("engine returned %d results for %d cases" % (len(res), len(batch)))
+        ctx.absorb(res)
+        total += len(batch)
+        for x in res:
+            obs = x.get("obs") if isinstance(x.get("obs"), dict) else {}
+            for d in obs.get("diff", []):
+                k = d.split(" ")[0]
+                drift_kinds[k] = drift_kinds.get(k, 0) + 1
+        cs = batch = res = None
+    ops = {c[0] for c in tb["cells"]}
+    if ops - seen_ops:
+        raise verif.ToolError("vacuous: instruction variants never executed: %s" % sorted(ops - seen_ops))
+    for need, seen in ((("action", "seal", "open", "policy", "recall"), seen_ctx),
+                       (("ok", "empty", "error", "itemerr"), seen_io)):
+        if not set(need) <= seen:
+            raise verif.ToolError("vacuous: classes never chosen: %s" % sorted(set(need) - seen))
 
     # hand-built / corrupted modules
     rm = ctx.tlc("VmBytecode", "MC_VmBytecode_Mod.cfg", timeout=300, coverage=False)
     if not rm.replays:
         raise verif.ToolError("TLC emitted no module cells")
-    mods, nprogs = module_cases(rm.replays, cases)
+    mods, nprogs = module_cases(rm.replays, mod_base)
     mres = ctx.run_engine(vh, "module", PINNED_MOD + mods, timeout=900, tag="module")
     ctx.absorb(mres)
 
     # binding self-test: a perturbed prediction must be noticed by the comparison
-    good = next(c for c in cases if c["exp"]["st"] == "exit:normal" and c["exp"]["s"])
     bad = json.loads(json.dumps(good))
     bad["exp"]["s"] = bad["exp"]["s"][:-1]
     bad2 = json.loads(json.dumps(good))
@@ -183,31 +194,16 @@ def run(ctx):
     if len(st) != 2 or not st[0].get("ok") or st[1].get("ok"):
         raise verif.ToolError("module binding self-test failed: %s" % [x.get("ok") for x in st])
 
-    drift_kinds, mod_outcomes = {}, {}
-    for x in res:
-        obs = x.get("obs") if isinstance(x.get("obs"), dict) else {}
-        for d in obs.get("diff", []):
-            k = d.split(" ")[0]
-            drift_kinds[k] = drift_kinds.get(k, 0) + 1
+    mod_outcomes = {}
     for x in mres:
         obs = x.get("obs") if isinstance(x.get("obs"), dict) else {}
-        s = obs.get("st", "panic")
-        mod_outcomes[s] = mod_outcomes.get(s, 0) + 1
-    # distinct non-trivial cells: (instruction that produced the final outcome, outcome, kinds of
-    # the values left on the stack), where the outcome is not the trivial accept — a normal
-    # exit or simply running off the end of the program
-    klasses = set()
-    for c in cases:
-        e = c["exp"]
-        if e["st"] in ("exit:normal", "err:InvalidAddress"):
-            continue
-        cell = c["prog"][e["pc"]] if e["pc"] < c["len"] else None
-        klasses.add((json.dumps(cell), e["st"], tuple(v[0] for v in e["s"])))
+        s_ = obs.get("st", "panic")
+        mod_outcomes[s_] = mod_outcomes.get(s_, 0) + 1
     for c in mods:
         if c["codemap"] != "none" or c["labels"] != "zero" or c["defs"] != "ok":
             klasses.add(("module", c["codemap"], c["labels"], c["defs"], c["entry"]))
     ctx.cov.update({
-        "evaluations": len(cases) + len(mods) + len(PINNED) + len(PINNED_MOD),
+        "evaluations": total + len(mods) + len(PINNED_MOD),
         "distinct_nontrivial": len(klasses),
         "rule": "cell = (initial stack, lazily built program over all instruction cells, context, I/O class) "
                 "or (code map, labels, definitions, entry point) around such a program; expected outcome = "
@@ -227,7 +223,8 @@ def run(ctx):
         "drift_by_field": drift_kinds,
         "pinned_regressions": len(PINNED) + len(PINNED_MOD),
         "exhaustive": True,
-        "exhaustive_scope": "programs <= %d instructions within the stated stacks and all module cells; longer programs by simulation" % (3 if ctx.thorough else 2),
+        "exhaustive_scope": ("programs <= 3 instructions within the stated stacks, 4 instructions over one cell per variant, all module cells; longer programs by simulation"
+                             if ctx.thorough else "programs <= 2 instructions within the stated stacks (2-instruction tree: TLC exhaustive, seeded sample replayed) and all module cells; longer programs by simulation"),
         "selftest": "perturbed expected stack / status / entry outcome rejected in strict mode",
     })
     ctx.assumptions += [
